@@ -7,10 +7,12 @@ pub mod genplan;
 pub mod history;
 pub mod model;
 pub mod oracle_a;
+pub mod oracle_b;
 pub mod parser;
 pub mod plan;
 pub mod record;
 pub mod runa;
+pub mod runb;
 pub mod shrink;
 pub mod world;
 pub mod worldc;
